@@ -219,7 +219,11 @@ CLAIMED.update({
          'pending dependency links may be resolved), keeps references valid, is a no-op for installed lexicons and for extensions '
          'whose base is missing, and what is skipped depends only on (id, version, extends); adding a new non-extension lexicon and '
          'then removing it restores every content table exactly (incl. the dependency links of other lexicons; only the shared '
-         'lookup tables keep what was added), after which all hypotheses hold again and the lexicon is offered for adding again. Partial: "equals what adding just the '
+         'lookup tables keep what was added), after which all hypotheses hold again and the lexicon is offered for adding again; '
+         'the dependency links are resolved exactly at all times: the provider_rowid of every dependency row is the rowid of the '
+         'installed lexicon with that id and version and NULL when there is none, an invariant preserved by every add (back-fill '
+         'when the provider arrives later, resolution at insertion) and every remove (SET NULL / CASCADE), so it does not depend '
+         'on the order of the history. Partial: "equals what adding just the '
          'installed lexicons to an empty database gives" is the composition of these facts with the content theorems of C01 and is '
          'decided as a whole by the history oracle; for specifier lists matching several lexicons exactness is proved per '
          'lexicon. Known finding F3 (tags/pronunciations of extensions survive removal: no owner column).',
